@@ -4,7 +4,8 @@
    Model/Lifecycle.v: an application is the list of registration calls made on it (cleanup_ctx.append,
    on_startup/on_shutdown/on_cleanup.append, add_subapp); a failure oracle says which user step raises;
    `via_apprunner` / `via_run_app` give the event log of the instrumented callbacks.
-   `entered l` = contexts whose startup code completed, `exited l` = contexts whose cleanup code ran. *)
+   `entered l` = contexts whose startup code completed, `exited l` = contexts whose cleanup code ran.
+   The model follows the code repaired by /repo 439e4f8, 9bf51ac, 14e69de, ee73039 (every finding this property had). *)
 From AV Require Import Lib.Base Generated.LifecycleGen Model.Lifecycle Proofs.Lifecycle Model.Shutdown Proofs.Shutdown.
 From Coq Require Import Permutation.
 Open Scope N_scope.
@@ -21,85 +22,43 @@ Theorem C20_context_mechanism : forall f cs l ex r,
 Proof. exact context_mechanism. Qed.
 Print Assumptions C20_context_mechanism.
 
-(* ---- "only if", and "at most once": ALL trees, ALL failure choices, both entry points ----
-   the cleanup code of a context never runs more often than its startup code completed *)
+(* ---- THE PROPERTY, FULL: for ALL application trees, ALL choices of failing steps (context startup/teardown,
+   on_startup / on_shutdown / on_cleanup receivers at any level, the site), through BOTH entry points: the cleanup
+   code of a context runs exactly as often as its startup code completed ---- *)
+Theorem C20_cleanup_iff_started : forall f a,
+  cleanup_iff_started (via_apprunner f a) /\ cleanup_iff_started (fst (via_run_app f a)).
+Proof. exact iff_started. Qed.
+Print Assumptions C20_cleanup_iff_started.
+
+(* ... and in which order: exactly, per application (root first, then the sub-applications in registration
+   order), its started contexts reversed *)
+Theorem C20_cleanup_order : forall f a l1 x r1,
+  startup_app f a = (l1, x, r1) ->
+  entered (via_apprunner f a) = xt_started x /\
+  exited (via_apprunner f a) = xt_cleanup_order x /\
+  Permutation (xt_cleanup_order x) (xt_started x).
+Proof. exact exact. Qed.
+Print Assumptions C20_cleanup_order.
+
+(* corollary kept as a separate obligation: never without a completed start-up, never twice *)
 Theorem C20_cleanup_only_if_started : forall f a c,
   (count_occ N.eq_dec (exited (via_apprunner f a)) c <= count_occ N.eq_dec (entered (via_apprunner f a)) c)%nat /\
   (count_occ N.eq_dec (exited (fst (via_run_app f a))) c <= count_occ N.eq_dec (entered (fst (via_run_app f a))) c)%nat.
 Proof. exact only_if_started. Qed.
 Print Assumptions C20_cleanup_only_if_started.
 
-(* ---- order: ALL trees, ALL failure choices ----
-   the contexts whose cleanup code runs form a subsequence of: per application (root first, then
-   sub-applications in registration order) its started contexts reversed *)
-Theorem C20_cleanup_order : forall f a l1 x r1,
-  startup_app f a = (l1, x, r1) ->
-  entered (via_apprunner f a) = xt_started x /\
-  subseq (exited (via_apprunner f a)) (xt_cleanup_order x) /\
-  Permutation (xt_cleanup_order x) (xt_started x).
-Proof. exact exit_order. Qed.
-Print Assumptions C20_cleanup_order.
+(* applications without sub-applications: the global order is the exact reverse of start-up *)
+Theorem C20_cleanup_reverse_order_flat : forall f a,
+  flat a = true ->
+  exited (via_apprunner f a) = rev (entered (via_apprunner f a)) /\
+  exited (fst (via_run_app f a)) = rev (entered (fst (via_run_app f a))).
+Proof. exact flat_iff. Qed.
+Print Assumptions C20_cleanup_reverse_order_flat.
 
 (* ---- both entry points produce the same events (run_app's setup() is inside its try/finally) ---- *)
 Theorem C20_entry_points_agree : forall f a, fst (via_run_app f a) = via_apprunner f a.
 Proof. exact entry_points_agree. Qed.
 Print Assumptions C20_entry_points_agree.
-
-(* ---- the full statement `forall f a, cleanup_iff_started (via_apprunner f a)` is REFUTED by the faithful
-   model in two ways (a third one is repaired, see (c)); each witness is replayed on the implementation (corpus/C20/finding-*.json) ---- *)
-
-(* (a) a later start-up step fails after a sub-application's context started: Application.cleanup()
-       takes the not-frozen branch and runs only the root's own contexts *)
-Theorem C20_cleanup_iff_started_refuted_startup_failure :
-  exists f a, ~ cleanup_iff_started (via_apprunner f a).
-Proof. exists w_startup_f, w_startup_app. exact refuted_startup. Qed.
-Print Assumptions C20_cleanup_iff_started_refuted_startup_failure.
-
-(* (b) a context teardown raises: Signal.send stops, later sub-applications are not cleaned *)
-Theorem C20_cleanup_iff_started_refuted_cleanup_error :
-  exists f a, (forall s, f s = true -> exists c, s = SExit c) /\ ~ cleanup_iff_started (via_apprunner f a).
-Proof.
-  exists w_cleanup_f, w_cleanup_app. split; [|exact refuted_cleanup].
-  intros s; destruct s; vm_compute; try discriminate; intros _; eexists; reflexivity.
-Qed.
-Print Assumptions C20_cleanup_iff_started_refuted_cleanup_error.
-
-(* (c) REPAIRED in /repo 9bf51ac (was: an on_shutdown receiver raises and BaseRunner.cleanup() never reaches
-       _cleanup_server()).  Regression example: Server.shutdown and the context teardown still run, and the
-       receiver's exception is the one that leaves cleanup().  Replay: corpus/C20/fixed-on_shutdown-error-skips-cleanup.json *)
-Example C20_regression_on_shutdown_error_still_cleans :
-  via_apprunner (fails [SShutdown 201]) (App [RCtx 1; RSd 201]) =
-  [EEnter 1 true; ESite true; EPre; ESd 201 false; ESrv; EExit 1 true; ECleanupRaised (ErrStep (SShutdown 201))].
-Proof. exact regression_shutdown. Qed.
-Print Assumptions C20_regression_on_shutdown_error_still_cleans.
-
-(* ---- what holds instead ---- *)
-
-(* applications without sub-applications: FULL — every failure choice (contexts, all three kinds of receivers,
-   site start), exact reverse order, through both entry points *)
-Theorem C20_cleanup_iff_started_flat : forall f a,
-  flat a = true ->
-  exited (via_apprunner f a) = rev (entered (via_apprunner f a)) /\
-  exited (fst (via_run_app f a)) = rev (entered (fst (via_run_app f a))) /\
-  cleanup_iff_started (via_apprunner f a).
-Proof. exact flat_iff. Qed.
-Print Assumptions C20_cleanup_iff_started_flat.
-
-(* arbitrary trees: start-up succeeded (excludes (a)) and no teardown step raises (excludes (b)); on_shutdown
-   receivers and the site may fail.  Missing for the full statement: exactly the two refuted families above. *)
-Theorem C20_cleanup_iff_started_tree_partial : forall f a l x,
-  no_teardown_failure f -> startup_app f a = (l, x, None) ->
-  exited (via_apprunner f a) = xt_cleanup_order x /\
-  exited (fst (via_run_app f a)) = xt_cleanup_order x /\
-  cleanup_iff_started (via_apprunner f a).
-Proof. exact tree_iff. Qed.
-Print Assumptions C20_cleanup_iff_started_tree_partial.
-
-(* whatever fails during start-up, the ROOT application's started contexts are cleaned, in reverse order *)
-Theorem C20_root_contexts_cleaned_when_startup_fails : forall f a l x e,
-  startup_app f a = (l, x, Some e) -> exited (via_apprunner f a) = rev (xt_exits x).
-Proof. exact root_cleaned_on_startup_failure. Qed.
-Print Assumptions C20_root_contexts_cleaned_when_startup_fails.
 
 (* order of the phases when start-up succeeded, whatever raises afterwards: close() on every connection (EPre)
    before the on_shutdown receivers, Server.shutdown (ESrv) after them — also when one of them raised — and
@@ -114,28 +73,41 @@ Theorem C20_phase_order : forall f a l1 x,
 Proof. exact phase_order. Qed.
 Print Assumptions C20_phase_order.
 
-(* ---- non-vacuity ---- *)
-Example C20_example_flat :
-  let a := App [RCtx 1; RCtx 2; RSu 101; RCtx 3; RCl 301] in
-  let f := fails [SEnter 3; SExit 1; SCleanup 301; SSite] in
-  flat a = true /\
-  via_apprunner f a = [EEnter 1 true; EEnter 2 true; EEnter 3 false; ESetupRaised (ErrStep (SEnter 3));
-                       EExit 2 true; EExit 1 false; ECleanupRaised (ErrStep (SExit 1))].
-Proof. vm_compute. repeat split; intros; reflexivity. Qed.
-Print Assumptions C20_example_flat.
+(* ---- regression examples: the three former refutations of the full statement, now repaired in /repo ---- *)
+(* 14e69de: a later start-up step fails after a sub-application's context started *)
+Example C20_regression_startup_failure_cleans_subapp :
+  via_apprunner (fails [SStartup 101]) (App [RSub (App [RCtx 1]); RSu 101]) =
+  [EEnter 1 true; ESu 101 false; ESetupRaised (ErrStep (SStartup 101)); EExit 1 true].
+Proof. exact regression_startup. Qed.
+Print Assumptions C20_regression_startup_failure_cleans_subapp.
 
+(* ee73039: a context teardown raises; the sub-application registered later is still cleaned *)
+Example C20_regression_cleanup_error_runs_later_receivers :
+  via_apprunner (fails [SExit 1]) (App [RCtx 1; RSub (App [RCtx 2])]) =
+  [EEnter 1 true; EEnter 2 true; ESite true; EPre; ESrv; EExit 1 false; EExit 2 true; ECleanupRaised (ErrStep (SExit 1))].
+Proof. exact regression_cleanup. Qed.
+Print Assumptions C20_regression_cleanup_error_runs_later_receivers.
+
+(* 9bf51ac: an on_shutdown receiver raises; Server.shutdown and the teardown still run *)
+Example C20_regression_on_shutdown_error_still_cleans :
+  via_apprunner (fails [SShutdown 201]) (App [RCtx 1; RSd 201]) =
+  [EEnter 1 true; ESite true; EPre; ESd 201 false; ESrv; EExit 1 true; ECleanupRaised (ErrStep (SShutdown 201))].
+Proof. exact regression_shutdown. Qed.
+Print Assumptions C20_regression_on_shutdown_error_still_cleans.
+
+(* ---- non-vacuity ---- *)
 Example C20_example_tree :
-  let a := App [RCtx 1; RSub (App [RCtx 2; RCtx 3; RSu 102; RCl 302]); RSu 101; RSd 201; RCl 301] in
-  let f := fails [SSite; SShutdown 201] in
-  no_teardown_failure f /\
-  (exists l x, startup_app f a = (l, x, None) /\ xt_cleanup_order x = [1; 3; 2]) /\
-  exited (via_apprunner f a) = [1; 3; 2] /\ entered (via_apprunner f a) = [1; 2; 3].
-Proof. vm_compute. repeat split; intros; try reflexivity. eexists; eexists; split; reflexivity. Qed.
+  let a := App [RCtx 1; RSub (App [RCtx 2; RCtx 3; RSu 102; RCl 302; RSub (App [RCtx 4])]); RSu 101; RSd 201; RCl 301] in
+  let f := fails [SSite; SShutdown 201; SExit 3; SCleanup 302; SExit 1] in
+  exited (via_apprunner f a) = [1; 3; 2; 4] /\ entered (via_apprunner f a) = [1; 2; 3; 4] /\
+  last (via_apprunner f a) EPre = ECleanupRaised ErrMulti.
+Proof. vm_compute. repeat split; reflexivity. Qed.
 Print Assumptions C20_example_tree.
 
 (* ======================= graceful shutdown (Model/Shutdown.v) =======================
    Times in ms relative to T0, the instant Server.pre_shutdown() runs; t_ms = shutdown_timeout,
-   s_ms = how long the on_shutdown signal takes (Server.shutdown(timeout) starts at T0 + s_ms). *)
+   s_ms = how long the on_shutdown signal takes (Server.shutdown(timeout) starts at T0 + s_ms).
+   The model follows the code repaired by /repo 009879e, cff98d2, 8d0202e. *)
 Open Scope Z_scope.
 
 (* no request the peer sends after T0 is dispatched, whatever the connection was doing *)
@@ -143,54 +115,40 @@ Theorem C20_shutdown_no_new_request : forall c p delta, late_accepted c p delta 
 Proof. exact no_new_request. Qed.
 Print Assumptions C20_shutdown_no_new_request.
 
-(* "idle keep-alive connections are closed at once" (closed_at = Some 0) is REFUTED: pre_shutdown() only
-   cancels the idle waiter; the transport is closed by Server.shutdown() after the on_shutdown signal.
-   Replay: corpus/C20/finding-idle-open-during-on_shutdown.json *)
-Theorem C20_shutdown_idle_closed_at_once_refuted :
-  exists c, 0 < t_ms c /\ 0 <= s_ms c /\ closed_at (conn_outcome c PIdle) <> Some 0.
-Proof. exact idle_at_once_refuted. Qed.
-Print Assumptions C20_shutdown_idle_closed_at_once_refuted.
-
-(* what holds: an idle connection is closed when the on_shutdown signal has finished (at once iff s_ms = 0) *)
-Theorem C20_shutdown_idle_closed_partial : forall c,
-  conn_outcome c PIdle = {| closed_at := Some (s_ms c); handler := HNone |}.
+(* idle keep-alive connections are closed at once (at T0), whatever the on_shutdown receivers do *)
+Theorem C20_shutdown_idle_closed_at_once : forall c,
+  conn_outcome c PIdle = {| closed_at := Some 0; handler := HNone |}.
 Proof. exact idle_outcome. Qed.
-Print Assumptions C20_shutdown_idle_closed_partial.
+Print Assumptions C20_shutdown_idle_closed_at_once.
 
-(* a request already being handled completes if its handler returns within the timeout (counted from the
-   end of the on_shutdown signal); its connection is closed when the response has been written *)
+(* a request already being handled completes if what it needs (its handler returning / the rest of its body
+   arriving / reading its already received body) happens within the timeout, counted from the end of the
+   on_shutdown signal; its connection is closed when the response has been written *)
 Theorem C20_shutdown_in_flight_may_complete : forall c d,
-  0 < t_ms c -> 0 <= s_ms c -> d <= s_ms c + t_ms c ->
-  conn_outcome c (PHandling (Some d)) = {| closed_at := Some d; handler := HCompleted d |}.
+  0 <= s_ms c -> d <= s_ms c + Z.max 0 (t_ms c) ->
+  conn_outcome c (PHandling (Some d)) = {| closed_at := Some d; handler := HCompleted d |} /\
+  conn_outcome c (PUpload (Some d)) = {| closed_at := Some d; handler := HCompleted d |} /\
+  conn_outcome c (PReadLater d) = {| closed_at := Some d; handler := HCompleted d |}.
 Proof. exact may_complete. Qed.
 Print Assumptions C20_shutdown_in_flight_may_complete.
 
-(* ... but NOT a request whose body is still arriving: REFUTED, the bytes are dropped after close().
-   Replay: corpus/C20/finding-inflight-body-dropped.json *)
-Theorem C20_shutdown_in_flight_may_complete_refuted_upload :
-  exists c arrive, 0 < t_ms c /\ 0 <= s_ms c /\ 0 < arrive <= s_ms c + t_ms c /\
-  exists a, handler (conn_outcome c (PUpload (Some arrive))) = HCancelled a.
-Proof. exact upload_refuted. Qed.
-Print Assumptions C20_shutdown_in_flight_may_complete_refuted_upload.
-
 (* every handler has completed or been cancelled, and every connection is closed, no later than twice the
-   timeout after the on_shutdown signal (+ at most 2 s of ceil_timeout rounding when the timeout exceeds 5 s).
-   _partial: needs 0 < shutdown_timeout; see the refutation below *)
-Theorem C20_shutdown_cancelled_after_twice_timeout_partial : forall c p,
-  0 < t_ms c -> 0 <= s_ms c ->
+   timeout after the on_shutdown signal (+ at most 2 s of ceil_timeout rounding when the timeout exceeds 5 s);
+   a timeout <= 0 means "do not wait" *)
+Theorem C20_shutdown_cancelled_after_twice_timeout : forall c p,
+  0 <= s_ms c ->
   bounded c (conn_outcome c p) /\
-  bound c <= s_ms c + 2 * t_ms c + 2000 /\ (t_ms c <= 5000 -> bound c = s_ms c + 2 * t_ms c).
+  bound c <= s_ms c + 2 * Z.max 0 (t_ms c) + 2000 /\ (t_ms c <= 5000 -> bound c = s_ms c + 2 * Z.max 0 (t_ms c)).
 Proof. exact cancel_bound. Qed.
-Print Assumptions C20_shutdown_cancelled_after_twice_timeout_partial.
+Print Assumptions C20_shutdown_cancelled_after_twice_timeout.
 
-(* shutdown_timeout <= 0 means NO deadline (ceil_timeout(0)): REFUTED for such timeouts.
-   Replay: corpus/C20/finding-zero-timeout-never-cancels.json *)
-Theorem C20_shutdown_cancelled_after_twice_timeout_refuted_nonpositive :
-  exists c, t_ms c <= 0 /\ 0 <= s_ms c /\
-  conn_outcome c (PHandling None) = {| closed_at := None; handler := HStuck |} /\
-  server_shutdown_returns c [PHandling None] = None.
-Proof. exact nonpositive_timeout_refuted. Qed.
-Print Assumptions C20_shutdown_cancelled_after_twice_timeout_refuted_nonpositive.
+(* the second wait is the cancellation phase: a handler that touches its request body only then is failed
+   at that moment (the payload was poisoned at the end of the first wait) — it does not get until 2t *)
+Theorem C20_shutdown_body_read_in_second_wait_fails : forall c d d1 dl,
+  0 <= s_ms c -> first_deadline c = Some d1 -> last_deadline c = Some dl -> d1 < d <= dl ->
+  conn_outcome c (PReadLater d) = {| closed_at := Some d; handler := HCancelled d |}.
+Proof. exact read_later_after_first_wait. Qed.
+Print Assumptions C20_shutdown_body_read_in_second_wait_fails.
 
 (* whenever Server.shutdown returns (cleanup then runs the on_cleanup signal and returns), every connection
    has been closed, for any number of connections in any phases *)
@@ -200,23 +158,42 @@ Theorem C20_shutdown_all_closed_on_return : forall c ps r,
 Proof. exact all_closed_on_return. Qed.
 Print Assumptions C20_shutdown_all_closed_on_return.
 
-(* and with a positive timeout it does return, within the same bound *)
-Theorem C20_shutdown_returns_partial : forall c ps,
-  0 < t_ms c -> 0 <= s_ms c ->
+(* and it always returns, within the same bound *)
+Theorem C20_shutdown_returns : forall c ps,
+  0 <= s_ms c ->
   exists r, server_shutdown_returns c ps = Some r /\ r <= bound c /\
   forall p, In p ps -> exists a, closed_at (conn_outcome c p) = Some a /\ a <= r.
 Proof. exact returns_bounded. Qed.
-Print Assumptions C20_shutdown_returns_partial.
+Print Assumptions C20_shutdown_returns.
+
+(* regression examples: the three former refutations (009879e idle, cff98d2 upload, 8d0202e timeout <= 0) *)
+Example C20_regression_idle_closed_before_on_shutdown :
+  conn_outcome {| t_ms := 10000; s_ms := 4000; abs0 := 1000000 |} PIdle = {| closed_at := Some 0; handler := HNone |}.
+Proof. exact regression_idle. Qed.
+Print Assumptions C20_regression_idle_closed_before_on_shutdown.
+
+Example C20_regression_upload_completes :
+  conn_outcome {| t_ms := 10000; s_ms := 0; abs0 := 1000000 |} (PUpload (Some 125)) = {| closed_at := Some 125; handler := HCompleted 125 |}.
+Proof. exact regression_upload. Qed.
+Print Assumptions C20_regression_upload_completes.
+
+Example C20_regression_zero_timeout_cancels_at_once :
+  conn_outcome {| t_ms := 0; s_ms := 0; abs0 := 1000000 |} (PHandling None) = {| closed_at := Some 0; handler := HCancelled 0 |} /\
+  server_shutdown_returns {| t_ms := 0; s_ms := 0; abs0 := 1000000 |} [PHandling None] = Some 0.
+Proof. exact regression_zero_timeout. Qed.
+Print Assumptions C20_regression_zero_timeout_cancels_at_once.
 
 Example C20_example_shutdown :
   let c := {| t_ms := 7500; s_ms := 250; abs0 := 1000000 |} in
-  0 < t_ms c /\ 0 <= s_ms c /\
-  map (conn_outcome c) [PIdle; PHandling (Some 7625); PHandling (Some 9000); PHandling None; PUpload (Some 125)] =
-    [ {| closed_at := Some 250; handler := HNone |};
+  map (conn_outcome c) [PIdle; PHandling (Some 7625); PHandling (Some 9000); PHandling None; PUpload (Some 125);
+                        PUpload None; PReadLater 9000] =
+    [ {| closed_at := Some 0; handler := HNone |};
       {| closed_at := Some 7625; handler := HCompleted 7625 |};
       {| closed_at := Some 9000; handler := HCompleted 9000 |};
       {| closed_at := Some 16000; handler := HCancelled 16000 |};
-      {| closed_at := Some 8000; handler := HCancelled 8000 |} ] /\
+      {| closed_at := Some 125; handler := HCompleted 125 |};
+      {| closed_at := Some 8000; handler := HCancelled 8000 |};
+      {| closed_at := Some 9000; handler := HCancelled 9000 |} ] /\
   server_shutdown_returns c [PIdle; PHandling (Some 7625); PHandling None] = Some 16000 /\ bound c = 17250.
-Proof. vm_compute. repeat split; try reflexivity; intro H; discriminate H. Qed.
+Proof. vm_compute. repeat split; reflexivity. Qed.
 Print Assumptions C20_example_shutdown.
